@@ -765,6 +765,8 @@ class Mir:
             cands = self.methods.get((ty, rest), [])
             if not cands and ty.startswith("["):
                 cands = self.methods.get(("[T]", rest), [])  # blanket impl over slices
+            if not cands and tr is not None:
+                cands = [(t, n) for (t, n) in self.methods.get(("T", rest), []) if t == tr]  # blanket `impl<T: ..> Trait for T`
             if len(cands) > 1:
                 segs_t = strip_generics(parts[0].strip().lstrip("&").replace("mut ", "")).split("::")
                 if len(segs_t) >= 2:
